@@ -400,6 +400,17 @@ def fam_eq(tier, seed, extra=()):
         ("f := () -> int { return 1 }; f == f", True),
         ("f := () -> int { return 1 }; g := () -> int { return 1 }; f == g", False),
         ("f := () -> int { return 1 }; g := f; f == g", True),
+        # identity survives every way a function value can travel: its own name inside its body, arguments,
+        # results, containers, captures
+        ("f := (g: any) -> bool { return g == f }; f(f)", True),
+        ("me := () -> any { return me }; me() == me", True),
+        ("me := () -> any { return me }; (me() != me, [me()] == [me], (me(), 1) == (me, 1))", (False, True, True)),
+        ("id := (x: any) -> any { return x }; f := () -> int { return 1 }; (id(f) == f, id(id) == id)", (True, True)),
+        ("f := () -> int { return 1 }; arr := [f, f]; (arr[0] == arr[1], arr[0] == f)", (True, True)),
+        ("f := () -> int { return 1 }; h := () -> any { return f }; h() == f", True),
+        ("mk := () -> () -> int { return () -> int { return 1 } }; a := mk(); b := mk(); (a == a, a == b)", (True, False)),
+        ("c := mut 1; id := (x: any) -> any { return x }; (id(c) == c, [c][0] == c, struct{a := c}.a == c)", (True, True, True)),
+        ("c := mut 1; h := () -> mut int { return c }; (h() == c, h() == mut 1)", (True, False)),
         ("x := 0.0 / 0.0; x == x", False), ("x := [0.0 / 0.0]; x == x", False),
         # by content, also when both operands are the very same object
         ("n := 0.0 / 0.0; s := struct{a := n}; s == s", False), ("n := 0.0 / 0.0; s := (n, 1); s == s", False),
@@ -502,7 +513,7 @@ def fam_index(tier, seed, extra=()):
         # consistency of len and indexing
         if n:
             out.append(Case(f"len/at/{k}", f"s := {lit}; s[std.len(s) - 1] == s[-1]", True, mode="std"))
-    return out
+    return out + literal_index_cases()
 
 
 def fam_slice(tier, seed, extra=()):
@@ -710,6 +721,22 @@ def fam_fold_logic(tier, seed, extra=()):
     return [c for c in fam_order(tier, seed) if "/and/" in c.id or "/or/" in c.id]
 
 
+def literal_index_cases():
+    """constant index into an array LITERAL with non-constant elements (at::create_from_instructions, Array arm)
+    and into string constants, at and around the boundaries -n and n"""
+    out = []
+    # constant index into an array LITERAL with non-constant elements (at::create_from_instructions, Array arm)
+    for n in (1, 2, 3):
+        elems = ", ".join(f"x + {j}" for j in range(n))
+        for i in (-n - 1, -n, -n + 1, -1, 0, n - 1, n, n + 1, MIN, MAX):
+            exp = (10 + (i % n)) if -n <= i < n else Err(E_INDEX)
+            out.append(Case(f"fold/index/lit/{n}/{i}", f"f := (x: int) -> int {{ return [{elems}][i] }}; f(10)", exp, {"i": i},
+                            what=f"[{elems}][{i}] with x hidden"))
+            out.append(Case(f"fold/index/str/{n}/{i}", f"f := (x: int) -> string {{ return \"{'abc'[:n]}\"[i] }}; f(10)",
+                            ('abc'[:n][i] if -n <= i < n else Err(E_INDEX)), {"i": i}))
+    return out
+
+
 def fam_fold(tier, seed, extra=()):
     """constant vs hidden-constant twins at the operator level"""
     out = []
@@ -728,15 +755,7 @@ def fam_fold(tier, seed, extra=()):
     out.append(Case("fold/if/const", "x := if 1 < 2 10 else 20; x", 10))
     out.append(Case("fold/repeat/neg", "f := (x: int) -> [int] { return [x; 0 - 1] }; 1", Err(E_NEGLEN)))
     out.append(Case("fold/repeat/ok", "f := (x: int) -> [int] { return [x; 2] }; f(3)", [3, 3]))
-    # constant index into an array LITERAL with non-constant elements (at::create_from_instructions, Array arm)
-    for n in (1, 2, 3):
-        elems = ", ".join(f"x + {j}" for j in range(n))
-        for i in (-n - 1, -n, -n + 1, -1, 0, n - 1, n, n + 1, MIN, MAX):
-            exp = (10 + (i % n)) if -n <= i < n else Err(E_INDEX)
-            out.append(Case(f"fold/index/lit/{n}/{i}", f"f := (x: int) -> int {{ return [{elems}][i] }}; f(10)", exp, {"i": i},
-                            what=f"[{elems}][{i}] with x hidden"))
-            out.append(Case(f"fold/index/str/{n}/{i}", f"f := (x: int) -> string {{ return \"{'abc'[:n]}\"[i] }}; f(10)",
-                            ('abc'[:n][i] if -n <= i < n else Err(E_INDEX)), {"i": i}))
+    out += literal_index_cases()
     out.append(Case("fold/index/early", "f := (x: int) -> int { return [x, x][2] }; 1", Err(E_INDEX)))
     out.append(Case("fold/index/ok", "f := (x: int) -> int { return [x, x + 1][0 - 1] }; f(1)", 2))
     return out
